@@ -260,6 +260,21 @@ def gen_profile_chain(rng, profile, quick, reopen=False):
     return {"kind": "chain", "seed": rng.randrange(10 ** 9), "gens": gens}
 
 
+def gen_overwrite_chain(rng, quick):
+    """a writer leaves a file (flushed or closed); the next one opens the same path with Overwrite, writes,
+    flushes and is killed; sometimes a third one re-opens read-write"""
+    hi = 12 if quick else 24
+    gens = [{"mode": rng.choice(["w", "a"]), "phases": [rng.randrange(5, hi)], "end": rng.choice(["close", "flush", "exit"]),
+             "big": False, "compression": rng.choice(FILE_COMPRESSIONS)},
+            {"mode": "w", "phases": [rng.randrange(4, hi) for _ in range(rng.choice([1, 2]))],
+             "end": rng.choice(["flush", "flush", "flush_flush", "close"]), "big": rng.random() < 0.3,
+             "compression": rng.choice(FILE_COMPRESSIONS)}]
+    if rng.random() < 0.4:
+        gens.append({"mode": "a", "phases": [rng.randrange(3, hi)], "end": rng.choice(ENDS), "big": False,
+                     "compression": rng.choice(FILE_COMPRESSIONS)})
+    return {"kind": "chain", "seed": rng.randrange(10 ** 9), "gens": gens}
+
+
 # ---------------------------------------------------------------------------------------
 # probes of the open path's model: what libhdf5 does with library-version bounds on the property list
 
@@ -289,6 +304,18 @@ def gen_fapl_probes(rng, n):
             out.append({"kind": "fapl", "seed": rng.randrange(10 ** 9),
                         "gens": [{"mode": "w", "phases": [rng.randrange(3, 8)], "end": e, "big": False,
                                   "compression": None, "fapl": [lo, hi]}]})
+    # the superblock version is a property of the file: a file created with a locking bound and closed, then
+    # re-opened by a writer with the ordinary property list, is marked again while that writer holds it
+    # (read-write: refused after flush + kill; read-only: never marked)
+    locking = [p for p in pairs if LIBVER_RANK[p[0]] >= LIBVER_RANK["v110"]]
+    if locking:
+        for mode2 in (["a"] if n < len(pairs) else ["a", "r", "a"]):
+            lo, hi = rng.choice(locking)
+            out.append({"kind": "fapl", "seed": rng.randrange(10 ** 9),
+                        "gens": [{"mode": "w", "phases": [rng.randrange(3, 8)], "end": rng.choice(["close", "exit"]),
+                                  "big": False, "compression": None, "fapl": [lo, hi]},
+                                 {"mode": mode2, "phases": [rng.randrange(2, 6)],
+                                  "end": rng.choice(["flush", "flush_flush"]), "big": False, "compression": None}]})
     return out
 
 
@@ -692,6 +719,9 @@ def correspondence(ctx):
         chains.append(gen_profile_chain(rng, pr, quick, reopen=True))
     for _ in range(ctx.budget(0, 12)):
         chains.append(gen_profile_chain(rng, rng.choice(profs), quick, reopen=rng.random() < 0.3))
+    # a path that already holds a file, taken over with Overwrite, flushed (not closed) and killed
+    for _ in range(ctx.budget(1, 6)):
+        chains.append(gen_overwrite_chain(rng, quick))
     # probes of the open-path model (library-version bounds on the property list): model vs libhdf5 only, the
     # property oracle does not look at them
     chains.extend(gen_fapl_probes(rng, ctx.budget(5, 10 ** 6)))
@@ -767,7 +797,8 @@ def correspondence(ctx):
         if chain.get("kind") == "fapl":
             g = chain["gens"][0]
             o = (recs[-1]["obs"] or {}).get("r", {}) if recs else {}
-            key = "%s..%s/%s" % (g["fapl"][0], g["fapl"][1], g["end"])
+            key = "%s..%s/%s" % (g["fapl"][0], g["fapl"][1], "+".join(
+                "%s:%s" % (x["mode"], x["end"]) for x in chain["gens"]))
             dist["fapl_probes"][key] = "refused" if "open_error" in o else "opens"
     dist["walks_not_stable_in_process"] = nonstable
     dist["anchors_changed"] = changed
@@ -882,7 +913,9 @@ def oracle(ctx, broken, hints):
     own = []
     while kills < n_own:
         i = len(own)
-        if i % 2 == 1:
+        if i % 6 == 5:
+            c = gen_overwrite_chain(rng, quick)
+        elif i % 2 == 1:
             # a phase of one kind of write (overwrites / small appends / deletions / appends / attributes) between two flush points
             c = gen_profile_chain(rng, SPECIAL_PROFILES[(i // 2) % len(SPECIAL_PROFILES)], quick,
                                   reopen=(i % 10 == 9))
